@@ -106,6 +106,12 @@ func materialize(root string, c caseRec) error {
 				return err
 			}
 		}
+		if has(c.Problems, "escaping-import") && side == "cur" {
+			// an import path that is not a valid path inside any module: not "not found" but still a problem of the sources
+			if err := write(root, side+"/acme/v1/esc.proto", "syntax = \"proto3\";\n\npackage acme.v1;\n\nimport \"../outside.proto\";\n"); err != nil {
+				return err
+			}
+		}
 		if has(c.Problems, "lint-violation") {
 			for _, n := range []string{"l1", "l2"} {
 				if err := write(root, side+"/acme/v1/"+n+".proto", "syntax = \"proto3\";\n\npackage acme.v1;\n\nmessage bad_"+n+" {\n  // f\n  string BadField = 1;\n}\n"); err != nil {
